@@ -355,5 +355,64 @@ func genTables() string {
 		}
 		fmt.Fprintf(&b, "Definition gen_jcs_literals : list string := [%s].\n", strings.Join(items, "; "))
 	}
+	b.WriteString(genLongformProtocol())
 	return b.String()
+}
+
+// genLongformProtocol evaluates the protocol.Protocol literal returned by GetProtocolConfig.
+func genLongformProtocol() string {
+	pkg := "pkg/vdr/sidetreelongform/dochandler/protocolversion/versions/v1_0/config"
+	fd := findFunc(loadPkg(pkg), "", "GetProtocolConfig")
+	if fd == nil {
+		return "Definition gen_longform_protocol_missing : unit := tt.\n"
+	}
+	var lit *ast.CompositeLit
+	ast.Inspect(fd.Body, func(n ast.Node) bool {
+		if cl, ok := n.(*ast.CompositeLit); ok && lit == nil {
+			if typeName(cl.Type) == "protocol.Protocol" {
+				lit = cl
+			}
+		}
+		return true
+	})
+	if lit == nil {
+		return "Definition gen_longform_protocol_missing : unit := tt.\n"
+	}
+	vals := map[string]string{}
+	for _, el := range lit.Elts {
+		kv, ok := el.(*ast.KeyValueExpr)
+		if !ok {
+			continue
+		}
+		name := kv.Key.(*ast.Ident).Name
+		if cl, ok := kv.Value.(*ast.CompositeLit); ok {
+			var items []string
+			for _, e := range cl.Elts {
+				items = append(items, coqLit(evalConst(pkg, e)))
+			}
+			vals[name] = "[" + strings.Join(items, "; ") + "]"
+		} else {
+			vals[name] = coqLit(evalConst(pkg, kv.Value))
+		}
+	}
+	fields := []struct{ name, zero string }{
+		{"GenesisTime", "0%Z"}, {"MultihashAlgorithms", "[]"}, {"MaxOperationCount", "0%Z"}, {"MaxOperationSize", "0%Z"},
+		{"MaxOperationHashLength", "0%Z"}, {"MaxDeltaSize", "0%Z"}, {"MaxCasURILength", "0%Z"}, {"CompressionAlgorithm", "\"\""},
+		{"MaxCoreIndexFileSize", "0%Z"}, {"MaxProofFileSize", "0%Z"}, {"MaxProvisionalIndexFileSize", "0%Z"}, {"MaxChunkFileSize", "0%Z"},
+		{"Patches", "[]"}, {"SignatureAlgorithms", "[]"}, {"KeyAlgorithms", "[]"}, {"MaxOperationTimeDelta", "0%Z"}, {"NonceSize", "0%Z"},
+		{"MaxMemoryDecompressionFactor", "0%Z"}}
+	var args []string
+	for _, f := range fields {
+		if v, ok := vals[f.name]; ok {
+			args = append(args, v)
+			delete(vals, f.name)
+		} else {
+			args = append(args, f.zero)
+		}
+	}
+	out := "From Sidetree Require Import Sidetree.Protocol.\nDefinition gen_longform_protocol : protocol :=\n  Build_protocol " + strings.Join(args, " ") + ".\n"
+	if len(vals) > 0 {
+		out += "Definition gen_longform_protocol_unknown_fields : unit := tt.\n"
+	}
+	return out
 }
